@@ -107,6 +107,25 @@ def run(ctx):
         why = spec_on_impl(o)
         if why:
             report(ctx, o, why)
+    if rows:
+        # the engines as the commands build them (real option parsing + newScanEngine) incl. rates below 1/s
+        ok, _ = ctx.harness_run("c08", ["-wired", "-out", "wired.jsonl"], timeout=300)
+        for o in (ctx.read_jsonl(os.path.join(ctx.work, "wired.jsonl")) if ok else []):
+            ctx.count("wired", ("wired", o["rate"], o["workers"]), nontrivial=True,
+                      sample={"rate": o["rate"], "workers": o["workers"], "ms": o["ms"], "calls": o["calls"]})
+            calls = o["calls"] or {}
+            why = None
+            if o["err"]:
+                why = "engine construction fails: " + o["err"]
+            elif sorted(calls.items()) != sorted((t, 1) for t in o["targets"]):
+                why = "targets probed %s, due: each of %s once" % (sorted(calls.items()), o["targets"])
+            elif not o["done"]:
+                why = "completion is not signalled within %d ms" % o["bound_ms"]
+            if why:
+                why = "sx socks/docker/elastic --workers %d --rate '%s' over 127.0.0.0/31 port 80: %s" % (o["workers"], o["rate"], why)
+                path = ctx.write_replay("wired-%d-%s" % (o["workers"], (o["rate"] or "none").replace("/", "per")),
+                                        {"property": "C08", "what": why, "input": {"workers": o["workers"], "rate": o["rate"]}, "observed": o})
+                ctx.findings.append({"key": "wired:" + o["rate"], "what": why, "replay": path})
     if model_ok and rows:
         small = [o for o in rows if len(o["reqs"] or []) <= 120 and o["w"] <= 16 and not o["panic"] and o["returned"]]
         small = small[:48 if quick else 400]
@@ -151,7 +170,7 @@ MANIFEST = {
                  "fate, ownership discipline, closed-and-drained chain), all W and all schedules; pinned source skeletons + "
                  "differential runs of the real engine under the real startScanEngine",
     "level_text": "C08_conservation, C08_probe_at_most_once, C08_probe_once, C08_fates, C08_printed_if_drained, "
-                  "C08_errors_once, C08_no_panic hold for every worker count, request stream, Scan outcome and schedule of "
+                  "C08_scans_exact, C08_errors_once, C08_no_panic hold for every worker count, request stream, Scan outcome and schedule of "
                   "the modelled network; C08_shape ties the behaviours to the goroutine structure of the current sources; "
                   "complete runs of the real code are compared with the model's terminal state and judged by the property.",
     "level_note": "Partial: 'printed before the program exits' needs real time -- proved under the hypothesis that the "
